@@ -3560,3 +3560,174 @@ func describeRoot(v ssa.Value) string {
 	}
 	return ""
 }
+
+// ---- round 6 ------------------------------------------------------------------------------------------------
+
+// mergeResultOpenedAfterProgram (C01): the merge driver cleans the file the merge program produced. A program may
+// produce it by replacing the file (write to a temporary, rename over it), so the handle that is cleaned must be
+// opened after the program has run — a handle opened before still reads the old, empty file.
+func mergeResultOpenedAfterProgram(c *Ctx, rule string) {
+	p := c.P
+	fn := p.Fn("commands", "processFiles")
+	if fn == nil {
+		c.Missing(rule, "commands.processFiles", "not found")
+		return
+	}
+	var run ssa.Instruction
+	for _, ci := range CallsIn(fn, "(*subprocess.Cmd).Run", "(*subprocess.Cmd).Wait", "(*subprocess.Cmd).Output", "(*subprocess.Cmd).CombinedOutput") {
+		run = ci
+	}
+	n := 0
+	for _, ci := range CallsIn(fn, "commands.clean") {
+		a := CallArgs(ci.Common())
+		if len(a) < 3 {
+			continue
+		}
+		n++
+		oc, _, ok := CallResult(a[2])
+		good := false
+		if ok && run != nil && strings.HasPrefix(CalleeName(oc.Common()), "os.Open") {
+			good = after(run, oc) && !after(oc, run)
+		}
+		c.Check(good, rule, "merge-driver:result-opened-after-program", p.InstrPos(ci), "the file that is cleaned is opened after the merge program ran",
+			"the merge driver cleans a handle that was not opened after the merge program ran: a program that replaces its output file leaves the handle on the old, empty file, and an empty pointer is written with exit status 0")
+	}
+	c.AtLeast(rule, "clean calls in processFiles", n, 1)
+}
+
+// smudgeCopiesWholeResult (C01): with a pointer extension the bytes smudge writes are the output of the
+// extensions' smudge programs, whose length is the original file's — not the pointer's size, which describes the
+// stored (transformed) object. The final copy in readLocalFile reads its source to the end: it is not wrapped in a
+// length-limited reader.
+func smudgeCopiesWholeResult(c *Ctx, rule string) {
+	p := c.P
+	fn := p.Fn("lfs", "(*GitFilter).readLocalFile")
+	if fn == nil {
+		c.Missing(rule, "(*lfs.GitFilter).readLocalFile", "not found")
+		return
+	}
+	n := 0
+	for _, ci := range CallsIn(fn, "tools.CopyWithCallback", "io.Copy", "io.CopyN") {
+		a := CallArgs(ci.Common())
+		n++
+		limited := CalleeName(ci.Common()) == "io.CopyN"
+		for _, l := range append(p.LeavesNoFields(a[1], func(v ssa.Value) FlowAct {
+			if cc, _, ok := CallResult(v); ok && nameIn(CalleeName(cc.Common()), []string{"io.LimitReader", "io.NewSectionReader"}) {
+				return Stop
+			}
+			return Descend
+		}), a[1]) {
+			if cc, _, ok := CallResult(l); ok && nameIn(CalleeName(cc.Common()), []string{"io.LimitReader", "io.NewSectionReader"}) {
+				limited = true
+			}
+		}
+		c.Check(!limited, rule, "smudge:copies-source-to-its-end#"+itoa(n), p.InstrPos(ci), "the smudged content is copied until the source ends",
+			"readLocalFile copies at most a fixed number of bytes: with a pointer extension whose stored form is shorter than the original (e.g. compression) the smudged file is silently cut at the pointer's size")
+	}
+	c.AtLeast(rule, "copies in readLocalFile", n, 1)
+}
+
+// failureSurvivesCleanup (C02): when a download failed, DoTransfer tidies up (keeps the partial file for a later
+// resume) and then returns the failure. Nothing on that path may assign the error variable again: the value
+// returned on the failure path is the failure itself.
+func failureSurvivesCleanup(c *Ctx, rule string) {
+	p := c.P
+	fn := p.Fn("tq", "(*basicDownloadAdapter).DoTransfer")
+	if fn == nil {
+		c.Missing(rule, "(*tq.basicDownloadAdapter).DoTransfer", "not found")
+		return
+	}
+	n := 0
+	for _, ci := range CallsIn(fn, "(*tq.basicDownloadAdapter).download") {
+		dl, ok := ci.(*ssa.Call)
+		if !ok {
+			continue
+		}
+		n++
+		// on the `download failed` edge every return hands on exactly that error
+		fail := PassEdges(fn, func(cond ssa.Value) (bool, bool) {
+			if e, trueMeansNil, ok := IsErrNilCheck(cond); ok && ResultOfCall(e, dl, 0) {
+				return !trueMeansNil, true
+			}
+			return false, false
+		})
+		good, where := nonVacuous(fail), ""
+		for _, e := range fail {
+			for _, r := range ReturnsOf(fn) {
+				if !InstrReachable(e.To(), r, nil, noReturnCommands) {
+					continue
+				}
+				// explore from the failure edge: what does the return carry?
+				ExploreX(e.To(), nil, nil, noReturnCommands, nil, nil, func(in ssa.Instruction, st PState) bool {
+					if in != ssa.Instruction(r) {
+						return true
+					}
+					v := Base(r.Results[len(r.Results)-1], st)
+					if !ResultOfCall(v, dl, 0) {
+						good, where = false, p.InstrPos(r)
+					}
+					return false
+				})
+			}
+		}
+		c.Check(good, rule, "DoTransfer:failure-returned-after-cleanup", p.InstrPos(dl), "after a failed download the function returns that failure",
+			"after a failed download DoTransfer can return something other than the failure ("+where+"; e.g. the result of renaming the partial file away): a failed transfer is reported as success although nothing was placed at the final location")
+	}
+	c.AtLeast(rule, "download calls in DoTransfer", n, 1)
+}
+
+// workerErrorPerJob (C02, C06): a worker handles many jobs; the outcome it reports for a job is the outcome of
+// that job's transfer. The error value handed to job.Done is defined inside the loop body on every path (never
+// carried over from the previous iteration).
+func workerErrorPerJob(c *Ctx, rule string) {
+	p := c.P
+	fn := p.Fn("tq", "(*adapterBase).worker")
+	if fn == nil {
+		c.Missing(rule, "(*tq.adapterBase).worker", "not found")
+		return
+	}
+	loops := Loops(fn)
+	n := 0
+	for _, ci := range CallsIn(fn, "(*tq.job).Done") {
+		a := CallArgs(ci.Common())
+		l := LoopOf(loops, ci.Block())
+		if l == nil || len(a) < 2 {
+			continue
+		}
+		n++
+		good := true
+		seen := map[ssa.Value]bool{}
+		var walk func(v ssa.Value)
+		walk = func(v ssa.Value) {
+			if seen[v] {
+				return
+			}
+			seen[v] = true
+			ph, ok := v.(*ssa.Phi)
+			if !ok {
+				if defs := ReachingDefs(v); len(defs) > 0 {
+					for _, d := range defs {
+						walk(d)
+					}
+				}
+				return
+			}
+			if ph.Block() == l.Header {
+				// a loop-carried value: what arrives over the back edge is last iteration's error
+				for i, e := range ph.Edges {
+					if l.Region[ph.Block().Preds[i]] && !IsNilConst(e) {
+						good = false
+					}
+				}
+				return
+			}
+			for _, e := range ph.Edges {
+				walk(e)
+			}
+		}
+		walk(a[1])
+		c.Check(good, rule, "worker:error-belongs-to-this-job", p.InstrPos(ci), "the error reported for a job is computed in this iteration",
+			"the error a worker reports for a job can be left over from an earlier job: after one failed transfer every later object on that worker is reported as failed although it was verified and moved into place")
+	}
+	c.AtLeast(rule, "job completions in the worker loop", n, 1)
+}
